@@ -38,6 +38,7 @@ func ruleAbort(c *core.Ctx, a *engb.Analyzer) {
 	// complete output: a written file holds the new source and nothing else; every argument is processed (never replaced by an
 	// expansion that may be empty); standard output carries only the generated source
 	emit(c, a.OutputFilesTruncated())
+	emit(c, a.WholeDocumentDecoded())
 	emit(c, a.EveryArgumentIsProcessed("main.init$1"))
 	emit(c, a.StdoutCarriesOnlyCode())
 	r := a.Abort()
